@@ -170,30 +170,65 @@ class Impl:
         return "other:" + resp.hex()
 
     def call(self, s, c):
+        """one API call; every second call goes through the convenience spellings of the same call (bind_simple / bind_sasl, keyword
+        arguments, parameters left at their defaults when the value IS the default) — by the documentation these are the same call"""
         k = c["k"]
         ctrls = [C.control_from_json(x) for x in c.get("controls") or []]
+        self._alt = not getattr(self, "_alt", False)
+        alt = self._alt
+
+        def opt(d):
+            """drop parameters whose value is the documented default"""
+            return {n: v for n, (v, default) in d.items() if not (alt and v == default and type(v) is type(default))}
+
         if k == "bind":
-            return s.bind(C.untx(c["dn"]), C.cred_from_json(c["cred"]), controls=ctrls)
+            cred = C.cred_from_json(c["cred"])
+            dn = C.untx(c["dn"])
+            if alt and isinstance(cred, sansldap.SimpleCredential):
+                return s.bind_simple(dn or None, cred.password or None, **opt({"controls": (ctrls, [])}))
+            if alt and isinstance(cred, sansldap.SaslCredential):
+                return s.bind_sasl(cred.mechanism, dn or None, cred.credentials, **opt({"controls": (ctrls, [])}))
+            return s.bind(dn, cred, controls=ctrls)
         if k == "search":
             f = None if c.get("filter") is None else C.filter_from_json(c["filter"])
-            return s.search_request(C.untx(c["base"]), c["scope"], c["deref"], c["size"], c["time"], c["typesOnly"], f,
-                                    [C.untx(a) for a in c["attrs"]], ctrls)
+            attrs = [C.untx(a) for a in c["attrs"]]
+            if alt:
+                return s.search_request(**opt({"base_object": (C.untx(c["base"]), ""), "scope": (c["scope"], 2), "dereferencing_policy": (c["deref"], 0),
+                                               "size_limit": (c["size"], 0), "time_limit": (c["time"], 0), "types_only": (c["typesOnly"], False),
+                                               "attributes": (attrs, []), "controls": (ctrls, [])}), filter=f)
+            return s.search_request(C.untx(c["base"]), c["scope"], c["deref"], c["size"], c["time"], c["typesOnly"], f, attrs, ctrls)
         if k == "extended":
+            if alt:
+                return s.extended_request(C.untx(c["name"]), **opt({"value": (C.ounhx(c.get("value")), None), "controls": (ctrls, [])}))
             return s.extended_request(C.untx(c["name"]), C.ounhx(c.get("value")), ctrls)
         if k == "unbind":
             return s.unbind()
         if k == "bindResponse":
+            if alt:
+                return s.bind_response(c["id"], **opt({"sasl_creds": (C.ounhx(c.get("sasl")), None), "result_code": (sansldap.LDAPResultCode(c["code"]), sansldap.LDAPResultCode.SUCCESS),
+                                                        "matched_dn": (C.untx(c["mdn"]), ""), "diagnostics_message": (C.untx(c["diag"]), ""), "controls": (ctrls, [])}))
             return s.bind_response(c["id"], C.ounhx(c.get("sasl")), sansldap.LDAPResultCode(c["code"]), C.untx(c["mdn"]),
                                    C.untx(c["diag"]), ctrls)
         if k == "extendedResponse":
+            if alt:
+                return s.extended_response(c["id"], **opt({"name": (C.ountx(c.get("name")), None), "value": (C.ounhx(c.get("value")), None),
+                                                            "result_code": (sansldap.LDAPResultCode(c["code"]), sansldap.LDAPResultCode.SUCCESS),
+                                                            "matched_dn": (C.untx(c["mdn"]), ""), "diagnostics_message": (C.untx(c["diag"]), ""),
+                                                            "controls": (ctrls, [])}))
             return s.extended_response(c["id"], C.ountx(c.get("name")), C.ounhx(c.get("value")),
                                        sansldap.LDAPResultCode(c["code"]), C.untx(c["mdn"]), C.untx(c["diag"]), ctrls)
         if k == "entry":
             attrs = [M.PartialAttribute(C.untx(a["name"]), [C.unhx(v) for v in a["vals"]]) for a in c["attrs"]]
+            if alt:
+                return s.search_result_entry(c["id"], object_name=C.untx(c["name"]), attributes=attrs, **opt({"controls": (ctrls, [])}))
             return s.search_result_entry(c["id"], C.untx(c["name"]), attrs, ctrls)
         if k == "reference":
-            return s.search_result_reference(c["id"], [C.untx(u) for u in c["uris"]], ctrls)
+            return s.search_result_reference(c["id"], [C.untx(u) for u in c["uris"]], **opt({"controls": (ctrls, [])}))
         if k == "done":
+            if alt:
+                return s.search_result_done(c["id"], **opt({"result_code": (sansldap.LDAPResultCode(c["code"]), sansldap.LDAPResultCode.SUCCESS),
+                                                             "matched_dn": (C.untx(c["mdn"]), ""), "diagnostics_message": (C.untx(c["diag"]), ""),
+                                                             "controls": (ctrls, [])}))
             return s.search_result_done(c["id"], sansldap.LDAPResultCode(c["code"]), C.untx(c["mdn"]), C.untx(c["diag"]), ctrls)
         if k == "receive":
             return s.receive(C.unhx(c["chunk"]))
